@@ -30,6 +30,7 @@ type PKICert struct {
 	Emails   []string `json:"emails"`
 	Orgs     []string `json:"orgs"`
 	URIs     []string `json:"uris"`
+	SerialOf string   `json:"serial_of,omitempty"` // reuse the serial number of this (earlier) certificate
 }
 
 type PKISpec struct {
@@ -117,6 +118,11 @@ func BuildPKI(spec PKISpec) (map[string]*BuiltCert, error) {
 		pkiSerial++
 		serial := pkiSerial
 		pkiKeyMu.Unlock()
+		if cs.SerialOf != "" {
+			if o := out[cs.SerialOf]; o != nil {
+				serial = o.Cert.SerialNumber.Int64()
+			}
+		}
 		nb, na := now.Add(-48*time.Hour), now.Add(48*time.Hour)
 		switch cs.Validity {
 		case "expired":
